@@ -381,28 +381,31 @@ def family_fanout(rng, count, max_oracle=2):
             top = add('orthogonal', r0)
         else:
             top = add('orthogonal', 0)
-        regs = []
+        regs, ys = [], {}
         for _ in range(rng.randint(2, 3)):
             reg = add('compound', top)
             plain = [add('basic', reg) for _ in range(rng.randint(1, 2))]
-            deep = []
+            deep, groups, y = [], [], 0
             if rng.random() < 0.75:
                 y = add('orthogonal', reg)
                 for _ in range(2):
-                    if rng.random() < 0.5:
+                    if rng.random() < 0.6:
                         cc = add('compound', y)
-                        deep.append(add('basic', cc))
-                        if rng.random() < 0.3:
-                            deep.append(add('basic', cc))
+                        grp = [add('basic', cc)]
+                        if rng.random() < 0.7:
+                            grp.append(add('basic', cc))
                     else:
-                        deep.append(add('basic', y))
+                        grp = [add('basic', y)]
+                    groups.append(grp)
+                    deep += grp
+            ys[reg] = (y, groups)
             regs.append((reg, plain, deep))
         n = len(kind)
         if n > 14 or not any(d for (_, _, d) in regs):
             continue
         initial = [0] * n
         for (reg, plain, deep) in regs:
-            initial[reg - 1] = plain[0]
+            initial[reg - 1] = ys[reg][0] if (ys[reg][0] and rng.random() < 0.5) else plain[0]
         for s in range(1, n + 1):
             if kind[s - 1] == 'compound' and not initial[s - 1]:
                 initial[s - 1] = rng.choice([i + 1 for i in range(n) if parent[i] == s])
@@ -423,8 +426,12 @@ def family_fanout(rng, count, max_oracle=2):
                 tgs = deep if deep and rng.random() < 0.8 else inside
                 guarded = rng.random() < 0.2 and g < max_oracle
                 g += guarded
-                trans.append(mk_trans(m[s], m[rng.choice(tgs)], rng.choice([1, 1, 1, 2]), 0, 'oracle' if guarded else 'none',
+                trans.append(mk_trans(m[s], m[rng.choice(tgs)], rng.choice([1, 1, 2, 2]), 0, 'oracle' if guarded else 'none',
                                       act=desc(incx=rng.choice([0, 1]))))
+            for grp in ys[reg][1]:          # moves inside one region of the nested orthogonal state
+                if len(grp) == 2 and rng.random() < 0.7:
+                    trans.append(mk_trans(m[grp[0]], m[grp[1]], 2))
+                    trans.append(mk_trans(m[grp[1]], m[grp[0]], rng.choice([1, 2])))
             for s in deep:
                 if rng.random() < 0.6:
                     trans.append(mk_trans(m[s], m[rng.choice(plain)], 2))
